@@ -264,6 +264,87 @@ fn check_infinity_shared(c: &InfShared) -> CaseResult {
     }
 }
 
+/// Histories on *reused* objects: 0 = the initiator first receives a damaged S_B (must fail), then the genuine (R_B, S_B) (must succeed with the
+/// standard's key: nothing it saw the second time was altered); 1 = a complete run, then a second run on the same two objects with the roles swapped;
+/// 2 = both parties call exchange_1 ("simultaneous start"), then one gives way and answers as responder.
+#[derive(Serialize, Deserialize, Hash, Debug, Clone)]
+pub struct Reuse {
+    pub kind: u8,
+    pub seed: u64,
+    pub klen: usize,
+}
+
+pub fn check_reuse(c: &Reuse) -> CaseResult {
+    let n = &r2::params().n;
+    let sc = |t: u64, m: &BigUint| from_be(&expand_bytes(c.seed ^ t << 8, 32)) % m + 1u32;
+    let (da, db) = (sc(1, &(n - 2u32)), sc(2, &(n - 2u32)));
+    let (pa, pb) = (r2::g_mul(&da), r2::g_mul(&db));
+    let (ida_b, ida) = id_bytes(1 + (c.seed % 3) as usize);
+    let (idb_b, idb) = id_bytes(4 + (c.seed % 2) as usize);
+    let (z_of_a, z_of_b) = (r2::za(ida_b, &pa), r2::za(idb_b, &pb));
+    let mk = |what: &str, e: String| Fail { key: format!("entry={} input=valid-key outcome=rejected", what), detail: e };
+    let (ska, skb) = (lib_sk(&da).map_err(|e| mk("Sm2PrivateKey::new", e))?, lib_sk(&db).map_err(|e| mk("Sm2PrivateKey::new", e))?);
+    let (pka, pkb) = (lib_pk(&pa).map_err(|e| mk("Sm2PublicKey::new", e))?, lib_pk(&pb).map_err(|e| mk("Sm2PublicKey::new", e))?);
+    let new = |klen, id, pk: &gm_sm2::key::Sm2PublicKey, sk: &gm_sm2::key::Sm2PrivateKey, rid, rpk: &gm_sm2::key::Sm2PublicKey| match outcome(|| Exchange::new(klen, id, pk, sk, rid, rpk)) {
+        Outcome::Ok(e) => Ok(e),
+        o => Err(Fail { key: format!("entry=Exchange::new input=valid outcome={}", o.class()), detail: o.describe() }),
+    };
+    let mut alice = new(c.klen, ida, &pka, &ska, idb, &pkb)?;
+    let mut bob = new(c.klen, idb, &pkb, &skb, ida, &pka)?;
+    // one complete run with `init` as initiator and `resp` as responder; returns nothing, fails on any deviation from the standard
+    let run = |init: &mut Exchange, resp: &mut Exchange, d_i: &BigUint, d_r: &BigUint, p_i: &Pt<Fp>, p_r: &Pt<Fp>, z_i: &[u8; 32], z_r: &[u8; 32], salt: u64, damaged_first: bool, tag: &str| -> Result<(), Fail> {
+        let (r_i, r_r) = (sc(10 + salt, &(n - 1u32)), sc(20 + salt, &(n - 1u32)));
+        let (r, _) = with_sm2_candidates(vec![to32(&r_i)], || init.exchange_1());
+        let ri_lib = match r { Ok(Ok(p)) => p, o => return Err(Fail { key: format!("entry=Exchange::exchange_1 input={} outcome=failure", tag), detail: format!("{:?}", o.map(|x| x.map(|p| show_lib(&p)))) }) };
+        let (r, _) = with_sm2_candidates(vec![to32(&r_r)], || resp.exchange_2(&ri_lib));
+        let (rr_lib, sb) = match r { Ok(Ok(v)) => v, Ok(Err(e)) => return Err(Fail { key: format!("entry=Exchange::exchange_2 input={} outcome=err", tag), detail: format!("{:?}", e) }), Err(p) => return Err(Fail { key: format!("entry=Exchange::exchange_2 input={} outcome=panic", tag), detail: p }) };
+        let want_r = r2::key_agreement(false, d_r, &r_r, p_i, &r2::g_mul(&r_i), z_i, z_r, c.klen).ok_or_else(|| Fail { key: "harness: reference responder infinity".into(), detail: "".into() })?;
+        if sb != want_r.s_b {
+            return Err(Fail { key: format!("entry=Exchange::exchange_2 input={} outcome=wrong-S_B", tag), detail: format!("library S_B {} ; GB/T 32918.3 {}", hex::encode(sb), hex::encode(want_r.s_b)) });
+        }
+        if damaged_first {
+            let mut bad = sb;
+            bad[5] ^= 0x10;
+            match outcome(|| init.exchange_3(&rr_lib, bad)) {
+                Outcome::Err(_) => {}
+                o => return Err(Fail { key: format!("entry=Exchange::exchange_3 input=tampered outcome={}", if o.is_ok() { "accepted" } else { "panic" }), detail: o.describe() }),
+            }
+        }
+        let want_i = r2::key_agreement(true, d_i, &r_i, p_r, &r2::g_mul(&r_r), z_i, z_r, c.klen).ok_or_else(|| Fail { key: "harness: reference initiator infinity".into(), detail: "".into() })?;
+        let sa = match outcome(|| init.exchange_3(&rr_lib, sb)) {
+            Outcome::Ok(sa) => sa,
+            o => return Err(Fail { key: format!("entry=Exchange::exchange_3 input={} outcome={}", tag, o.class()), detail: format!("nothing the initiator sees in this call was altered: {}", o.describe()) }),
+        };
+        if sa != want_i.s_a {
+            return Err(Fail { key: format!("entry=Exchange::exchange_3 input={} outcome=wrong-S_A", tag), detail: format!("library S_A {} ; GB/T 32918.3 {}", hex::encode(sa), hex::encode(want_i.s_a)) });
+        }
+        let (ki, kr) = (gm_sm2::verif_hooks::exchange_key(init), gm_sm2::verif_hooks::exchange_key(resp));
+        if ki.as_deref() != Some(&want_i.key[..]) || kr.as_deref() != Some(&want_i.key[..]) {
+            return Err(Fail { key: format!("entry=Exchange input={} outcome=wrong-key", tag), detail: format!("K_init {:?} K_resp {:?} standard {}", ki.map(hex::encode), kr.map(hex::encode), hex::encode(&want_i.key)) });
+        }
+        match outcome(|| resp.exchange_4(sa, &ri_lib)) {
+            Outcome::Ok(true) => Ok(()),
+            o => Err(Fail { key: format!("entry=Exchange::exchange_4 input={} outcome=rejected", tag), detail: o.describe() }),
+        }
+    };
+    match c.kind % 3 {
+        0 => run(&mut alice, &mut bob, &da, &db, &pa, &pb, &z_of_a, &z_of_b, 0, true, "retry-after-damaged-S_B")?,
+        1 => {
+            run(&mut alice, &mut bob, &da, &db, &pa, &pb, &z_of_a, &z_of_b, 0, false, "first-run")?;
+            run(&mut bob, &mut alice, &db, &da, &pb, &pa, &z_of_b, &z_of_a, 1, false, "second-run-roles-swapped")?;
+        }
+        _ => {
+            // simultaneous start: Bob also called exchange_1, then gives way and answers Alice
+            let (r, _) = with_sm2_candidates(vec![to32(&sc(30, &(n - 1u32)))], || bob.exchange_1());
+            if !matches!(r, Ok(Ok(_))) {
+                return fail("entry=Exchange::exchange_1 input=valid outcome=failure", "bob's own start".to_string());
+            }
+            run(&mut alice, &mut bob, &da, &db, &pa, &pb, &z_of_a, &z_of_b, 0, false, "responder-had-started-itself")?;
+        }
+    }
+    pass(true, ["retry", "roles-swapped", "simultaneous-start"][(c.kind % 3) as usize])
+}
+
 fn pt_tamper() -> impl Strategy<Value = Option<PtTamper>> {
     prop_oneof![
         4 => Just(None),
@@ -365,6 +446,16 @@ pub fn run(ctx: &Ctx) {
         }
         v
     }, check_infinity_shared);
+
+    ctx.listed("reused_objects", "histories on reused Exchange objects: a damaged S_B (failure) followed by the genuine one (success, standard key); a complete run followed by a second run with the roles swapped; both parties start, one gives way — every value compared with GB/T 32918.3", || {
+        let mut v = Vec::new();
+        for kind in 0..3u8 {
+            for i in 0..4u64 {
+                v.push(Reuse { kind, seed: 0x2e15 + i * 7 + kind as u64, klen: 16 + (i as usize * 11) % 40 });
+            }
+        }
+        v
+    }, check_reuse);
 
     ctx.listed("edge_point_ephemerals", "R_A (resp. R_B) replaced in transit by a boundary point of the curve (x next to 0, n, p, 2^256-p, powers of two, Montgomery limb patterns, y with a leading zero byte), affine and Z = 2: B must accept the valid point and derive exactly the S_B / K_B of GB/T 32918.3 from it; A must report failure", || {
         let n = &r2::params().n;
